@@ -66,12 +66,30 @@ def wordlist_clause(chk):
     n = chk.n(1000, 20000)
     for it in range(n):
         d = wlgen.gen_wordlist(rng, with_tokens=False)
-        if rng.random() < 0.4:
+        klass = rng.choice([Wordlist, Wordlist, LexStat, Alignments])
+        if klass is Alignments and rng.random() < 0.5:
+            # the caller already has alignments: list cells of one length per cognate set, also with a column that holds only gaps
+            # (e.g. after rows of a larger alignment were removed) - nested cells belong to the caller as much as the rows do
+            hi = d[0].index('ipa')
+            gi = d[0].index('cogid')
+            d[0] = d[0] + ['tokens', 'alignment']
+            sets = {}
+            for k in sorted(k for k in d if k != 0):
+                sets.setdefault(d[k][gi], []).append(k)
+            for g, ks in sets.items():
+                width = max(len(d[k][hi]) for k in ks)
+                col = rng.randrange(width + 1)
+                for k in ks:
+                    toks = list(d[k][hi])
+                    alm = toks + ['-'] * (width - len(toks))
+                    if rng.random() < 0.8 or len(ks) > 1:
+                        alm = alm[:col] + ['-'] + alm[col:]
+                    d[k] = d[k] + [toks, alm]
+        if rng.random() < 0.4 and 'alignment' not in d[0]:
             # the header as callers write it: upper case, aliases of the namespace - it belongs to the caller just like the rows
             spell = {'doculect': ['DOCULECT', 'language', 'taxa', 'Taxon'], 'concept': ['CONCEPT', 'gloss', 'Concept'], 'ipa': ['IPA', 'Ipa'],
                      'cogid': ['COGID', 'CogID']}
             d[0] = [rng.choice(spell[h] + [h]) if h in spell else h for h in d[0]]
-        klass = rng.choice([Wordlist, Wordlist, LexStat, Alignments])
         kind = rng.choice(['dict', 'wordlist'])
         log = []
         try:
